@@ -508,7 +508,7 @@ def run(ctx):
                "that is handed on (a result parsed strictly during resolution is not reused)")
     # ---------------------------------------------------------------- R18
     r = ctx.rule("C09-R18", "GUARD", "'any subset of the global switches': what one switch does is not conditional on another switch being absent - in create_io each effect (quiet, "
-                 "non-interactive, verbosity, formatter) is governed by the spellings of one switch family only", reference=3)
+                 "non-interactive, verbosity, formatter) is governed by the spellings of one switch family only", reference=5)
 
     def family(tok):
         t = tok.lstrip("-")
